@@ -352,6 +352,8 @@ int parser_reset(parser_t *parser)
         strophe_free(parser->ctx, parser->inner_text);
         parser->inner_text = NULL;
     }
+    parser->inner_text_size = 0;
+    parser->inner_text_used = 0;
 
     if (!parser->expat)
         return 0;
